@@ -273,7 +273,7 @@ func (c *ProofCommit) Update(commitments []*big.Int, witness *Witness) {
 	Logger.Tracef("revocation.ProofCommit.Update()")
 	defer Logger.Tracef("revocation.ProofCommit.Update() done")
 	c.cu = new(big.Int).Exp(c.g.H, c.secrets["epsilon"], c.g.N)
-	c.cu.Mul(c.cu, witness.U)
+	c.cu.Mul(c.cu, witness.U).Mod(c.cu, c.g.N)
 	c.nu = witness.SignedAccumulator.Accumulator.Nu
 	c.sacc = witness.SignedAccumulator
 
